@@ -263,12 +263,29 @@ def function_sets(w, R, fn_desc):
         for mode in fn_desc[1]:
             for h in w.handler(name):
                 m, i, arm = shared.arm_for(w, h, enum + mode)
+                binding = {}
+                if arm is None:
+                    # the arms may live in a helper the handler delegates to with a constant (`set_modes(modes, true)`)
+                    for nd in H.walk(w.hir(h)["body"]):
+                        if H.is_k(nd, "mcall") and nd.get("callee_local") and nd["callee"] in w.facts.hir:
+                            g = nd["callee"]
+                            m2, i2, arm2 = shared.arm_for(w, g, enum + mode)
+                            if arm2 is not None:
+                                arm = arm2
+                                params = w.facts.hir[g]["params"]
+                                for prm, a in zip(params[1:], nd["args"]):
+                                    a0 = H.unwrap(a)
+                                    if prm.get("p") == "bind" and H.is_k(a0, "lit"):
+                                        binding[prm["name"]] = a0["v"]
+                                break
                 if arm is None:
                     continue
                 for sf, rhs in shared.self_assigns(arm["body"]):
                     rhs = H.unwrap(rhs)
                     if H.is_k(rhs, "lit"):
                         out[sf[-1]] = rhs["v"]
+                    elif H.is_k(rhs, "path") and rhs.get("res") == "local" and rhs.get("name") in binding:
+                        out[sf[-1]] = binding[rhs["name"]]
                     elif H.path_of(rhs):
                         out[sf[-1]] = H.path_of(rhs)
     elif name == "Gzd4":
